@@ -9,3 +9,6 @@ import VibeProof.Props.C33
 #print axioms VibeProof.C33.C33_insert_of_declared_width_accepted
 #print axioms VibeProof.C33.C33_alter_keeps_table_usable
 #print axioms VibeProof.C33.C33_index_lookup
+#print axioms VibeProof.C33.C33_drop_column_removes_exactly
+#print axioms VibeProof.C33.C33_registries_step
+#print axioms VibeProof.C33.C33_registries_agree
